@@ -363,6 +363,7 @@ func (f *Frame) exec(c *cursor, in ssa.Instruction) bool {
 		for _, a := range x.Call.Args {
 			f.publish(c, a, x)
 		}
+		f.goroutineOwnObject(c, x)
 		return false
 	case *ssa.Send:
 		return false
@@ -1635,3 +1636,48 @@ func (f *Frame) loopOwned(li *loopInfo) []*ssa.Alloc {
 	return out
 }
 
+
+// goroutineOwnObject: a goroutine started as a method on an object may change
+// that object's own fields (and those of its embedded structs) at any time
+// from now on: they are given arbitrary values here.  Its writes to anything
+// else are concurrency and are not modelled (DESIGN 2.6).
+func (f *Frame) goroutineOwnObject(c *cursor, g *ssa.Go) {
+	e := f.e
+	callee := g.Call.StaticCallee()
+	if callee == nil || callee.Signature.Recv() == nil || len(g.Call.Args) == 0 {
+		return
+	}
+	recv := g.Call.Args[0]
+	_, stT, ok := isStructPtr(recv.Type())
+	if !ok {
+		return
+	}
+	ref, ok := f.vals[recv]
+	if !ok {
+		return
+	}
+	ef := e.P.effectsOf(callee, e.U)
+	var walk func(ref Term, t types.Type)
+	walk = func(ref Term, t types.Type) {
+		st := t.Underlying().(*types.Struct)
+		for i := 0; i < st.NumFields(); i++ {
+			ft := st.Field(i).Type()
+			if _, nested := ft.Underlying().(*types.Struct); nested {
+				if opaqueStruct(ft) == "" {
+					walk(e.embRef(ref, t, i), ft)
+				}
+				continue
+			}
+			fam := fieldFamily(t, i)
+			if _, written := ef.Fams[fam]; !written && !ef.All {
+				continue
+			}
+			fs := e.structFieldSort(t, i)
+			arr := e.family(c.st, fam, arraySort(SInt, fs))
+			nv := e.declare(f.pfx+"go."+sanitize(st.Field(i).Name()), fs)
+			f.typeFacts(nv, ft, c.st)
+			e.setFamily(c.st, fam, store(arr, ref, nv))
+		}
+	}
+	walk(ref, stT)
+}
